@@ -442,7 +442,7 @@ int main(int argc, char** argv)
             while (finished.load() < nact)
             {
                 std::this_thread::sleep_for(std::chrono::microseconds(200));
-                if (std::chrono::steady_clock::now() - t0 > std::chrono::seconds(6))
+                if (std::chrono::steady_clock::now() - t0 > std::chrono::seconds(12))
                 {
                     ev("quiescent").done();
                     hung = true;
